@@ -216,11 +216,16 @@ class Impl:
             lines.append(f"addsw {name} {'app' if is_app else 'svc'} {op} {a} {v} {fd} {o(fc)} {ad} {o(ac)}")
         fs = n.file_system
         lines.append(f"fsdefaults {o(fs._default_folder_scan_duration)} {o(fs._default_folder_restore_duration)}")
+        forder = {u: i + 1 for i, u in enumerate(fs.deleted_folders)}  # place in `deleted_folders` (deletion order)
         for fo in self.folders:
             lines.append(f"addfolder {fo.name} {b(fo.deleted)} {fo.health_status.name} {fo.visible_health_status.name} "
-                         f"{fo.scan_duration} {fo.scan_countdown} {fo.restore_duration} {fo.restore_countdown}")
+                         f"{fo.scan_duration} {fo.scan_countdown} {fo.restore_duration} {fo.restore_countdown} "
+                         f"{len(fo.deleted_files)} {forder.get(fo.uuid, 0)}")
+            # a deleted file's place in `deleted_files` (dict = deletion order): `restore_file` takes the first of a name
+            order = {u: i + 1 for i, u in enumerate(fo.deleted_files)}
             for f in self.files[fo.uuid]:
-                lines.append(f"addfile {fo.name} {f.name} {f.health_status.name} {f.visible_health_status.name} {b(f.deleted)}")
+                lines.append(f"addfile {fo.name} {f.name} {f.health_status.name} {f.visible_health_status.name} {b(f.deleted)} "
+                             f"{order.get(f.uuid, 0)}")
         return lines
 
     def dump(self) -> str:
@@ -1110,4 +1115,37 @@ def simultaneous_cases(durs_a=(1, 2, 3), durs_b=(1, 2)) -> List[dict]:
                                       "folders": [{"name": "d0", "scan": dur["fscan"], "restore": dur["frest"],
                                                    "files": [{"name": "a.txt", "health": "GOOD"}, {"name": "b.txt", "health": "COMPROMISED"}]}],
                                       "ops": ops, "family": f"simultaneous:{a}+{b_}", "delta": delta})
+    return cases
+
+
+# ------------------------------------------------------------------------------------------ same-named deleted items, restore by name
+def twin_restore_cases() -> List[dict]:
+    """Two (three) deleted files of one name and no live one, in every deletion order that operations can produce; then a restore by
+    name (file-system request, the completing folder restore) - the code reaches the first in DELETION order, and the completing
+    folder restore repairs it when a further deleted twin makes a second call. Same for folders of one name. Enumerated."""
+    D, A = "d0", "a.txt"
+    dele, crea, rest = ["fsdelfile", D, A], ["fscreatefile", D, A, "0"], ["fsrestfile", D, A]
+    two = [dele, crea, ["fileset", D, A, "CORRUPT"], dele]                      # deleted: first (initial health), second (CORRUPT)
+    flipped = two + [rest, dele]                                              # deletion order now: second, first
+    three = two + [crea, dele]
+    tails = [[rest], [rest, rest], [rest, dele, rest], [["folder", D, "restore"], ["tick"], ["tick"], ["tick"]],
+             [["folder", D, "restore"], ["tick"], rest, ["tick"], ["tick"]], [crea, rest, ["folder", D, "restore"], ["tick"], ["tick"]]]
+    fdel, fcre, frest = ["fsdelfolder", "d1"], ["fscreatefolder", "d1"], ["fsrestfolder", "d1"]
+    ftwo = [fdel, fcre, ["fscreatefile", "d1", "c.txt", "0"], fdel]
+    cases = []
+    for health in ("GOOD", "CORRUPT"):
+        for head in (two, flipped, three):
+            for tail in tails:
+                ops = [list(x) for x in head + tail] + [["osscan"], ["tick"], ["tick"]]
+                cases.append({"node": {"start": 0, "shut": 0, "scan": 1, "initial": "ON"}, "sw": [], "sysfix": {},
+                              "folders": [{"name": D, "scan": 2, "restore": 2, "files": [{"name": A, "health": health}]},
+                                          {"name": "d1", "scan": 2, "restore": 2, "files": [{"name": "b.txt", "health": health}]}],
+                              "ops": ops, "family": "twin-restore"})
+    for tail in ([frest], [frest, frest], [frest, fdel, frest], [frest, fdel, frest, ["tick"], ["tick"], ["tick"]],
+                 [fcre, frest, fdel, frest, frest]):
+        ops = [list(x) for x in ftwo + tail] + [["osscan"], ["tick"], ["tick"]]
+        cases.append({"node": {"start": 0, "shut": 0, "scan": 1, "initial": "ON"}, "sw": [], "sysfix": {},
+                      "folders": [{"name": D, "scan": 2, "restore": 2, "files": [{"name": A, "health": "GOOD"}]},
+                                  {"name": "d1", "scan": 2, "restore": 2, "files": [{"name": "b.txt", "health": "CORRUPT"}]}],
+                      "ops": ops, "family": "twin-restore"})
     return cases
